@@ -168,6 +168,29 @@ class _Normalise(ast.NodeTransformer):
                 return new
         return node
 
+    suppress_names = ()       # (module aliases of contextlib, local names of contextlib.suppress), set by normalise_tree
+
+    def visit_With(self, node):
+        """`with contextlib.suppress(E1, E2): BODY`  is  `try: BODY  except (E1, E2): pass`: suppress.__exit__ swallows exactly the
+        exceptions that are instances of the listed classes and execution continues after the with statement."""
+        self.generic_visit(node)
+        if len(node.items) != 1 or node.items[0].optional_vars is not None:
+            return node
+        ce = node.items[0].context_expr
+        if not (isinstance(ce, ast.Call) and not ce.keywords and ce.args and not any(isinstance(a, ast.Starred) for a in ce.args)):
+            return node
+        mods, names = self.suppress_names
+        f = ce.func
+        is_suppress = (isinstance(f, ast.Attribute) and f.attr == 'suppress' and isinstance(f.value, ast.Name) and f.value.id in mods) \
+            or (isinstance(f, ast.Name) and f.id in names)
+        if not is_suppress or not all(isinstance(a, (ast.Name, ast.Attribute)) for a in ce.args):
+            return node
+        typ = ce.args[0] if len(ce.args) == 1 else ast.copy_location(ast.Tuple(elts=list(ce.args), ctx=ast.Load()), ce)
+        handler = ast.ExceptHandler(type=typ, name=None, body=[ast.copy_location(ast.Pass(), node)])
+        ast.copy_location(handler, node)
+        new = ast.Try(body=node.body, handlers=[handler], orelse=[], finalbody=[])
+        return ast.copy_location(new, node)
+
     def _fn(self, node):
         self.generic_visit(node)
         _counter_updates(node)
@@ -729,7 +752,15 @@ def _inline_generator_loops(fn, funcs):
 
 
 def normalise_tree(tree):
-    tree = _Normalise().visit(tree)
+    mods, names = set(), set()
+    for st in ast.walk(tree):
+        if isinstance(st, ast.Import):
+            mods.update((a.asname or a.name) for a in st.names if a.name == 'contextlib')
+        elif isinstance(st, ast.ImportFrom) and st.module == 'contextlib' and st.level == 0:
+            names.update((a.asname or a.name) for a in st.names if a.name == 'suppress')
+    norm = _Normalise()
+    norm.suppress_names = (mods, names)
+    tree = norm.visit(tree)
     gen_funcs = {n.name: n for n in tree.body if isinstance(n, ast.FunctionDef)}
     for n in list(gen_funcs.values()):
         _inline_generator_loops(n, gen_funcs)
